@@ -6646,12 +6646,15 @@ fn eval_expr(
             if expr_state.done_subexpressions() {
                 let mut items: rpds::HashTrieMap<String, Value> = rpds::HashTrieMap::new();
                 let mut value_type = Type::no_value();
+                // Everything popped so far, so a failure can restore it.
+                let mut popped_values: Vec<Value> = vec![];
 
                 for kv in item_exprs {
                     // The evaluated value of key-value pair.
                     let value_value = env
                         .pop_value()
                         .expect("Value stack should have sufficient items for the dict literal");
+                    popped_values.push(value_value.clone());
 
                     // TODO: check that all elements are of a compatible type.
                     // Dict[1 => 1, 2 => ""] should be a runtime error.
@@ -6660,12 +6663,12 @@ fn eval_expr(
                     let key_value = env
                         .pop_value()
                         .expect("Value stack should have sufficient items for the dict literal");
+                    popped_values.push(key_value.clone());
 
                     let key_str = check_string(
                         &key_value,
                         &kv.key.position,
-                        // TODO: set saved_values properly here.
-                        vec![],
+                        popped_values.iter().rev().cloned().collect(),
                         env,
                     )?;
 
